@@ -79,15 +79,14 @@ def build(form, trajs, dtypes=None, layout=None):
 
 
 def refine(trajs):
-    """micro trajectories for `trajs` as macro trajectories: every macro label a is split into the
-    micro labels 3a-1000+{0,1,2} (by frame position), so micro and macro alphabets differ in
-    values and in number"""
-    return [np.array([3 * int(v) - 1000 + ((i * 7 + k) % 3 if int(v) % 2 else 0) for i, v in enumerate(t)], dtype=np.int64)
+    """micro trajectories for `trajs` as macro trajectories: the most frequent macro label a is split into
+    the two micro labels 3a-1000 and 3a-999 (alternating by frame), every other label b becomes 3b-1000;
+    micro and macro alphabets differ in values and in number, and the micro model usually stays ergodic"""
+    from collections import Counter
+    cnt = Counter(int(v) for t in trajs for v in t)
+    top = cnt.most_common(1)[0][0] if cnt else None
+    return [np.array([3 * int(v) - 1000 + (i % 2 if int(v) == top else 0) for i, v in enumerate(t)], dtype=np.int64)
             for k, t in enumerate(trajs)]
-
-
-def tolists(trajs):
-    return [[int(v) for v in t] for t in trajs]
 
 
 def alt_layouts(M):
